@@ -169,7 +169,7 @@ fn structural_offsets(buf: &[u8]) -> (Vec<usize>, Vec<(usize, usize)>) {
 
 /// Replacement texts for whole string values (re-encoded with a correct length header, so the
 /// buffer stays decodable and the *content* of a rule field is what is hostile).
-const STR_MENU: [&str; 12] = ["", "/", "//", "a", "é/", "/é", "/é/", "*", "^", "\"", "\\", "x, \"y"];
+const STR_MENU: [&str; 16] = ["", "/", "//", "a", "é/", "/é", "/é/", "*", "^", "\"", "\\", "x, \"y", "{}", "[]", "{\"selector\":[]}", "{\"selector\":[],\"action\":null}"];
 
 const MENU: [u8; 19] = [0x00, 0x7f, 0x80, 0x90, 0xa0, 0xc0, 0xc2, 0xc3, 0xc4, 0xca, 0xcc, 0xcf, 0xd9, 0xdb, 0xdc, 0xdd, 0xde, 0xdf, 0xff];
 const HUGE: [u8; 4] = [0xdb, 0xc6, 0xdd, 0xdf];
